@@ -146,6 +146,98 @@ theorem addr_table_is_spec_table (c : Cfg) (sec : Bytes) (base i : Nat) (hs : Va
     | none => ∃ e, getAddress c sec base i = .err e :=
   getAddress_tableOf c sec base i hs hlen
 
+/-! ## "the per-entry and per-unit range helpers built on them" -/
+
+/-- **`die_ranges` / `unit_ranges`, no `DW_AT_ranges`.** For a DIE whose `DW_AT_low_pc` is an
+address, whose `DW_AT_high_pc` is an address or a constant (`Benign`; anything else is skipped) the
+result is the single range `low_pc .. high_pc`, or `low_pc .. low_pc + size` for a constant
+`DW_AT_high_pc` — an `AddressOverflow` error when that sum leaves 64 bits, never a wrapped end;
+nothing without `DW_AT_low_pc` or without `DW_AT_high_pc`. (Later duplicates override earlier
+ones.) -/
+theorem die_ranges_cases (u : UnitCtx) (secs : Sections) (attrs : Attrs)
+    (hb : ∀ a ∈ attrs, Benign a) :
+    dieRangesCore u secs attrs =
+      let acc := attrs.foldl accStep {}
+      match acc.lowPc with
+      | none => .ok (.single none)
+      | some b =>
+        match acc.size with
+        | some sz => if 2 ^ 64 ≤ b + sz then .err .rAddressOverflow else .ok (.single (some (b, b + sz)))
+        | none => .ok (.single (acc.highPc.map fun e => (b, e))) :=
+  dieRangesCore_single u secs attrs hb
+
+/-- **`DW_AT_ranges` wins**: the first `DW_AT_ranges` that designates a list (a section offset, or
+an index whose offset-table slot can be read) makes the result that list — resolved with the
+unit's `low_pc` as base address and the unit's `addr_base` — whatever `low_pc`/`high_pc` say. -/
+theorem die_ranges_ranges_wins (u : UnitCtx) (secs : Sections) (pre post : Attrs) (v : AttrVal)
+    (o : Nat) (hb : ∀ a ∈ pre, Benign a) (ho : attrRangesOffset u secs v = .ok (some o)) :
+    dieRangesCore u secs (pre ++ (.ranges, v) :: post) =
+      (do let evs ← unitRangesAt u secs o; pure (.list evs)) :=
+  dieRangesCore_ranges_wins u secs pre post v o hb ho
+
+/-- the usual shapes, spelled out -/
+theorem die_ranges_low_high_addr (u : UnitCtx) (secs : Sections) (b e : Nat) :
+    dieRangesCore u secs [(.lowPc, .addr b), (.highPc, .addr e)] = .ok (.single (some (b, e))) := by
+  rw [die_ranges_cases u secs _ (by simp [Benign])]; rfl
+
+theorem die_ranges_low_size (u : UnitCtx) (secs : Sections) (b sz : Nat) :
+    dieRangesCore u secs [(.lowPc, .addr b), (.highPc, .udata sz)] =
+      if 2 ^ 64 ≤ b + sz then .err .rAddressOverflow else .ok (.single (some (b, b + sz))) := by
+  rw [die_ranges_cases u secs _ (by simp [Benign])]; rfl
+
+/-- indexed `DW_AT_low_pc` (`DW_FORM_addrx`): the address-table entry of the unit -/
+theorem die_ranges_lowx_size (u : UnitCtx) (secs : Sections) (i b sz : Nat)
+    (hi : getAddress u.cfg secs.debugAddr u.addrBase i = .ok b) :
+    dieRangesCore u secs [(.lowPc, .addrx i), (.highPc, .udata sz)] =
+      if 2 ^ 64 ≤ b + sz then .err .rAddressOverflow else .ok (.single (some (b, b + sz))) := by
+  simp only [dieRangesCore, dieRangesLoop, attrAddress, hi, Out.bind_ok, Out.pure_eq]
+
+/-- `attr_ranges_offset`: a section offset is used as it is — except in a GNU split-DWARF v4
+`.dwo` file, where it is relative to `DW_AT_GNU_ranges_base` — and an index goes through the offset
+table at `DW_AT_rnglists_base`; `attr_locations_offset` never adds a base to a section offset. -/
+theorem attr_offset_rules (u : UnitCtx) (secs : Sections) (o i : Nat) :
+    attrRangesOffset u secs (.secOffset o) =
+        .ok (some (if u.dwo ∧ u.cfg.version < 5 then (o + u.rnglistsBase) % 2 ^ 64 else o)) ∧
+      attrLocationsOffset u secs (.secOffset o) = .ok (some o) ∧
+      attrRangesOffset u secs (.listx i) =
+        (do let x ← getOffset u.cfg secs.debugRnglists u.rnglistsBase i; pure (some x)) ∧
+      attrLocationsOffset u secs (.listx i) =
+        (do let x ← getOffset u.cfg secs.debugLoclists u.loclistsBase i; pure (some x)) :=
+  ⟨rfl, rfl, rfl, rfl⟩
+
+/-- **dwo base rules**: without base attributes a unit's `rnglists_base` / `loclists_base` is 0,
+except in a DWARF 5 `.dwo` file where it is the size of the first table header (12 / 20 bytes);
+`addr_base` and `low_pc` default to 0. -/
+theorem dwo_base_rules (c : Cfg) (dwo : Bool) (secs : Sections) :
+    unitBases c dwo secs [] =
+      .ok ⟨c, dwo, 0, 0, defaultListsBase c dwo, defaultListsBase c dwo⟩ ∧
+    defaultListsBase c false = 0 ∧
+    (c.version < 5 → defaultListsBase c dwo = 0) ∧
+    (c.version ≥ 5 → defaultListsBase c true = match c.format with | .dwarf32 => 12 | .dwarf64 => 20) := by
+  refine ⟨rfl, ?_, ?_, ?_⟩
+  · simp [defaultListsBase]
+  · intro h; have : ¬ c.version ≥ 5 := by omega
+    simp [defaultListsBase, this]
+  · intro h; simp only [defaultListsBase, h, and_self, if_true]; cases c.format <;> rfl
+
+/-- **Recorded finding C08-1** (`known_findings.d/C08.json`): the single `low_pc .. high_pc` range
+of `die_ranges` / `unit_ranges` is NOT filtered, so the third sentence of C08 fails for it: here a
+DIE whose code was discarded by the linker (`DW_AT_low_pc = -1`, size 0) yields the empty range
+`[2^64-1, 2^64-1)` at the tombstone address. -/
+theorem die_ranges_single_unfiltered_partial :
+    ∃ (u : UnitCtx) (secs : Sections) (attrs : Attrs) (it : Item),
+      dieRanges u secs attrs = .ok [.item it] ∧ ¬ (it.b < it.e) ∧ ¬ (it.b < minTombstone u.cfg.addrSize) :=
+  ⟨⟨⟨.little, .dwarf32, 4, 8⟩, false, 0, 0, 0, 0⟩, ⟨[], [], [], [], []⟩,
+    [(.lowPc, .addr (2 ^ 64 - 1)), (.highPc, .udata 0)], ⟨2 ^ 64 - 1, 2 ^ 64 - 1, []⟩,
+    by decide, by decide, by decide⟩
+
+/-- everything `die_ranges` yields THROUGH A LIST is non-empty and below the tombstones (the full
+statement — every range `die_ranges` yields — is false, see `die_ranges_single_unfiltered_partial`) -/
+theorem die_ranges_list_nonempty_partial (u : UnitCtx) (secs : Sections) (attrs : Attrs)
+    (evs : List (Ev Item)) (h : dieRangesCore u secs attrs = .ok (.list evs)) :
+    ∀ it, Ev.item it ∈ evs → it.b < it.e ∧ it.b < minTombstone u.cfg.addrSize :=
+  dieRangesCore_list_items u secs attrs evs h
+
 /-! ## totality and termination within the input length -/
 
 /-- **The raw iterator terminates**: for every byte string, at most `len` calls of `next()` return
